@@ -11,7 +11,7 @@ class C10(SeqProp):
     id = "C10"
     props_file = "Props/C10.v"
     focus = "local"
-    quick_cases = 400
+    quick_cases = 800
     thorough_cases = 6000
     assumptions = [
         "fall times of pulses (FFT modulation) enter the model as oracle inputs",
